@@ -207,7 +207,12 @@ func checkC02(P *Prog, r *Result) {
 	// re-initialised (C07's rule restricted to SchemaCtx: no path or memo of an earlier node survives), and each
 	// field's schema runs on the field of that name (C03's rule) ----
 	shareRule(P, r, checkC10, "C10/path-writers", nil, "C02/issue-path", 4)
-	shareRule(P, r, checkC07, "C07/reinit", func(o Obligation) bool { return strings.Contains(o.Construct, "#zog/internals.SchemaCtx.") }, "C02/issue-path", 0)
+	shareRule(P, r, checkC07, "C07/reinit", func(o Obligation) bool {
+		return strings.Contains(o.Construct, "#zog/internals.SchemaCtx.") || strings.Contains(o.Construct, "PathBuilder")
+	}, "C02/issue-path", 0)
+	// a value that satisfies its node yields no issue: an absent optional node is not tested at all (C04's decision rule:
+	// dropping the early return for an empty optional slice runs the slice's own tests on it)
+	shareRule(P, r, checkC04, "C04/decision-shape", nil, "C02/absent-optional-not-tested", 5)
 	shareRule(P, r, checkC03, "C03/struct-writes-by-field", nil, "C02/issue-path", 4) // (floor over the three adoptions together, without the recycled-object part)
 	// an issue object belongs to one report: an issue released to the pool twice is handed to two later
 	// violations, one of which then shows the other's code and path (C07's release-multiplicity rule)
